@@ -649,7 +649,7 @@ func c14Conversion(p *Prog, r *Report) {
 // c14CDXURLSkips: the decisions after which ToCDX writes a component without PackageURL.
 var c14CDXURLSkips = []string{
 	// the package's extractor yields no package URL
-	"extractor.Extractor.ToPURL(param0.Inventory.Packages[ι].Extractor,param0.Inventory.Packages[ι]) == nil:*github.com/google/osv-scalibr/purl.PackageURL",
+	"extractor.ToPURL(param0.Inventory.Packages[ι].Extractor,param0.Inventory.Packages[ι]) == nil:*github.com/google/osv-scalibr/purl.PackageURL",
 	// end of the inventory
 	"range-end: param0.Inventory.Packages",
 }
